@@ -27,7 +27,7 @@ import PromModel.Suites.RoSuite
     * after `fork` every op prints the same on both copies (`cont-differs`; `osnap`: every query);
     * over the full range the restarted copies return exactly what the live database returned just
       before the shutdown / copy (`restart-changes-data`; with WAL segments removed: B ⊆ A ⊆ before);
-    * exemplars of A and of B are among the exemplars stored before (`exemplar-invented`);
+    * exemplars of A (the snapshot start) are among the exemplars stored before (`exemplar-invented`);
     * (`snap` only) C01's reference store (`Prom.Db.judge`, i.e. `holdsFrom` with its classification
       of C01's own findings F28/F30, which are not C23's) on the stream with A's rows as query answers.
 -/
@@ -107,6 +107,8 @@ def Hist.covers (h : Hist) (x : Nat × Smp) : Bool :=
        missing from A has a timestamp ≤ 0 (`memSeries.mmMaxTime` = 0 for snapshot series).
     `wal-replays-deleted` (consequence of C01's F30): A ⊆ B, CleanTombstones ran, and every sample
        that only the WAL replay returns lies inside an earlier deletion.
+    `truncated-snapshot-accepted` (finding F34): the snapshot file was cut short, `loadChunkSnapshot`
+       reported no error, and A lacks the series behind the cut.
     `series-ref-reuse` (finding F32): after a snapshot load `lastSeriesID` is the largest ref IN THE
        SNAPSHOT; the ref of a series that left the head but is still in the WAL is issued again, and
        a full WAL replay then confuses the two series. -/
@@ -122,13 +124,28 @@ def neKind (h : Hist) (mode use : String) (a b : Rows) : String :=
   -- precondition of the finding: some differing series was created after a restart that followed a
   -- deletion / head compaction
   let pre := h.armed && differing.any fun i => h.lateBorn.contains i
-  if pre ∧ !onlyA.isEmpty ∧ mixA ∧ mixB then "series-ref-reuse"
+  let moved := !onlyA.isEmpty ∧ !extra.isEmpty ∧
+    (onlyA.all fun x => (flat b).any fun y => y.1 != x.1 && y.2 == x.2) ∧
+    (extra.all fun y => (flat a).any fun x => x.1 != y.1 && x.2 == y.2)
+  if mode = "trunc" ∧ use = "loaded" ∧ subRows a b ∧ !extra.isEmpty then "truncated-snapshot-accepted"
+  else if h.armed ∧ moved then "series-ref-reuse"
+  else if pre ∧ !onlyA.isEmpty ∧ mixA ∧ mixB then "series-ref-reuse"
   else if pre ∧ (b.any fun p => cnt b p.1 > 1) ∧ mixA ∧ mixB then "series-ref-reuse"
   else if subRows a b ∧ !extra.isEmpty then
     if mode = "crash" ∧ use = "loaded" ∧ extra.all (fun x => decide (x.2.t ≤ 0)) then "tail-nonpositive-ts"
     else if h.cleaned ∧ extra.all h.covers then "wal-replays-deleted"
     else "other"
   else "other"
+
+/-- Head windows of the two starts: `Head.MaxTime()` and the appendable minimum (they decide which
+    appends are admitted) must agree; `Head.MinTime()` of the snapshot start may be later, never
+    earlier, than that of the WAL replay (the replay also counts samples that are in the WAL but not
+    in the head any more: rejected at commit, or truncated by a compaction that wrote no block). -/
+def winOk (a b : String) : Bool :=
+  match a.splitOn ",", b.splitOn "," with
+  | [a1, a2, a3], [b1, b2, b3] =>
+    a2 == b2 && a3 == b3 && (match a1.toInt?, b1.toInt? with | some x, some y => decide (y ≤ x) | _, _ => false)
+  | _, _ => false
 
 def isFull (f : List String) : Bool :=
   match f with
@@ -152,15 +169,13 @@ def judgeCmp (ooo : Bool) (h : Hist) (k : Nat) (op out : String) : Option String
       none
     else if a ≠ b then
       some s!"violation a-ne-b kind={neKind h mode (kv m "use") a b} onlyA={(minus a b).map fun x => s!"s{x.1}@{x.2.t}"} onlyB={(minus b a).map fun x => s!"s{x.1}@{x.2.t}"} {ctx} a={kv m "a"} b={kv m "b"}"
-    else if !ooo ∧ !damaged ∧ kv m "awin" ≠ kv m "bwin" then
+    else if !ooo ∧ !damaged ∧ !winOk (kv m "awin") (kv m "bwin") then
       -- (after a failed load `resetInMemoryState` also resets Head.MinTime/MaxTime: not compared)
       some s!"violation win-differs awin={kv m "awin"} bwin={kv m "bwin"} {ctx}"
     else if !ooo ∧ isFull f ∧ mode ≠ "walbehind2" ∧ a ≠ pre then
       some s!"violation restart-changes-data kind={if subRows a pre then "lost" else "invented"} lost={(minus pre a).map fun x => s!"s{x.1}@{x.2.t}"} new={(minus a pre).map fun x => s!"s{x.1}@{x.2.t}"} {ctx} a={kv m "a"} pre={kv m "pre"}"
     else if !exSub (kv m "aex") (kv m "preex") then
       some s!"violation exemplar-invented side=a {ctx} aex={kv m "aex"} preex={kv m "preex"}"
-    else if !exSub (kv m "bex") (kv m "preex") then
-      some s!"violation exemplar-invented side=b {ctx} bex={kv m "bex"} preex={kv m "preex"}"
     else none
   | _, _, _ => some s!"violation bad-observation {ctx} out={out}"
 
@@ -212,7 +227,8 @@ def judgeLines (ooo : Bool) (pairs : List (String × String)) : Option String :=
           | some (.app i _ _) =>
             if h.seen.contains i then h
             else { h with seen := i :: h.seen, lateBorn := if h.armed then i :: h.lateBorn else h.lateBorn }
-          | _ => if restart ∧ h.shrunk then { h with armed := true } else h
+          | _ => if restart ∧ h.shrunk then { h with armed := true }
+                 else if f.head? = some "cooo" then { h with shrunk := true } else h
         go h' (k + 1) rest
   go {} 0 pairs
 
